@@ -31,10 +31,19 @@ sEmoji   == <<128512>>                \* non-BMP
 sEmpty   == <<>>
 sNull    == <<110, 117, 108, 108>>    \* null
 sHash    == <<35, 120>>               \* #x
+sBsPairX == <<97, 92, 120>>           \* a\\x in the text the compiler reads
+sEscQuote == <<97, 57344, 34, 98>>    \* a\"b in the text the compiler reads (an escaped quote; the iso lexer accepts it)
+sEscSlash == <<97, 57344, 47, 98>>    \* a\/b
+sEscU    == <<57344, 117, 48, 48, 101, 57>>                                  \* \u00e9
+sEscSurr == <<57344, 117, 68, 56, 51, 68, 57344, 117, 68, 69, 48, 48>>      \* \uD83D\uDE00 (a non-BMP character, escaped)
 
 StrCases == { <<sX, {}>>, <<sSpace, {"str-nonword"}>>, <<sDot, {"str-nonword"}>>, <<sDash, {"str-nonword"}>>,
               <<sApos, {"str-apostrophe"}>>, <<sBsPair, {"str-backslash-pair"}>>, <<sRawN, {"str-backslash-n"}>>,
-              <<sLatin, {"str-nonascii"}>>, <<sEmoji, {"str-nonbmp"}>>, <<sEmpty, {"str-empty"}>>, <<sHash, {"str-nonword"}>> }
+              <<sLatin, {"str-nonascii"}>>, <<sEmoji, {"str-nonbmp"}>>, <<sEmpty, {"str-empty"}>>, <<sHash, {"str-nonword"}>>,
+              <<sBsPairX, {"str-backslash-pair-x"}>>, <<sEscQuote, {"str-escaped-quote"}>>, <<sEscSlash, {"str-escaped-slash"}>>,
+              <<sEscU, {"str-unicode-escape"}>> }
+\* sEmoji (rejected by the iso lexer: string characters stop at U+FFFF) stays as evidence of that; sEscSurr is only
+\* used by C12 (swc's projection of surrogate escapes is lossy, Node evaluates the real artifact there).
 
 tInt == Named("Int")   tStr == Named("String")   tID == Named("ID")   tFloat == Named("Float")   tBool == Named("Boolean")
 
@@ -127,7 +136,7 @@ NidVar == VarDef("nid", NonNull(tID))
 
 Modes(T) == CASE T = "Query" -> {"direct", "client"}
               [] T = "User"  -> {"direct", "client", "loadable", "refetch", "abstract"}
-              [] T = "Pet"   -> {"direct", "client", "loadable", "refetch", "abstract", "pointer", "feed", "refetchpet"}
+              [] T = "Pet"   -> {"direct", "client", "loadable", "refetch", "abstract", "pointer", "pointer-abstract", "feed", "refetchpet"}
 
 Decls(T, sel, vars, mode) ==
   CASE mode = "direct"   -> << Home(vars, Wrap(T, <<sel>>)), EP >>
@@ -140,10 +149,15 @@ Decls(T, sel, vars, mode) ==
                                     <<LinkedA("node", "", A1("id", Var("nid")), <<Linked(IF T = "Pet" THEN "asPet" ELSE "asUser", <<sel>>)>>)>>), EP >>
     [] mode = "pointer"  -> << Pointer("User", "favPet", "Pet", <<Linked("bestPet", <<Scalar("__link")>>)>>),
                                Home(vars, <<Linked("me", <<Linked("favPet", <<sel>>)>>)>>), EP >>
+    [] mode = "pointer-abstract" ->
+                            << Pointer("User", "favNode", "Node", <<Linked("bestPet", <<Scalar("__link")>>)>>),
+                               Home(vars, <<Linked("me", <<Linked("favNode", <<Linked("asPet", <<sel>>)>>)>>)>>), EP >>
     [] mode = "feed"     -> << Home(vars, Wrap(T, <<Scalar("feed"), sel>>)), EP >>
     [] mode = "refetchpet" -> << Home(vars, Wrap(T, <<Scalar("refetchPet"), sel>>)), EP >>
 
-ModeTag(mode) == IF mode = "direct" THEN {} ELSE {"mode-" \o mode}
+ModeTag(mode) == CASE mode = "direct" -> {}
+                   [] mode = "pointer-abstract" -> {"mode-pointer", "pointer-to-abstract-type"}
+                   [] OTHER -> {"mode-" \o mode}
 Prog(decls, feats) == [decls |-> decls, feats |-> feats]
 
 ValueProgramsF == UNION { { Prog(Decls(c.on, CaseSel(c), c.vars, m), c.tags \cup ModeTag(m)) : m \in Modes(c.on) } : c \in Cases }
@@ -174,8 +188,8 @@ PairModes(T) == IF T = "Query" THEN {"direct", "client"} ELSE {"direct", "client
 PairDecls(p, m) ==
   LET T == p[1]  s1 == SelA(p[1], p[2], "a", p[3])  s2 == PairSel2(p)  vars == PairVars(p) IN
   CASE m = "direct"  -> << Home(vars, Wrap(T, <<s1, s2>>)), EP >>
-    [] m = "client"  -> << Field(T, "Inner", vars, <<s1>>),
-                           Home(vars, Wrap(T, <<ScalarA("Inner", "", PassArgs(vars)), s2>>)), EP >>
+    [] m = "client"  -> << Field(T, "Inner", <<>>, <<s1>>),
+                           Home(vars, Wrap(T, <<Scalar("Inner"), s2>>)), EP >>
     [] m = "refetch" -> << Home(vars, Wrap(T, <<Scalar("__refetch"), s1, s2>>)), EP >>
 PairPrograms == UNION { { Prog(PairDecls(p, m), p[5] \cup ModeTag(m)) : m \in PairModes(p[1]) } : p \in PairArgs }
 
@@ -229,14 +243,39 @@ ComboPrograms ==
          c1.tags \cup c2.tags \cup {"combo"})
     : cc \in ComboPairs }
 
+\* ---- special programs: empty selection sets, mutation entrypoints ------------------------------------
+tFeedIn == NonNull(Named("FeedInput"))
+MutEP(name) == Entrypoint("Mutation", name)
+SpecialPrograms ==
+  { Prog(<< Component("Query", "Home", <<>>, <<>>), EP >>, {"empty-root-selection"}),
+    Prog(<< Field("FeedResult", "Nothing", <<>>, <<>>),
+            Component("Mutation", "DoFeed", <<VarDef("i", tFeedIn)>>, <<LinkedA("feedPet", "", A1("input", Var("i")), <<Scalar("Nothing")>>)>>),
+            MutEP("DoFeed") >>, {"empty-linked-selection"}),
+    Prog(<< Component("Mutation", "DoFeed", <<VarDef("i", tFeedIn)>>,
+                      <<LinkedA("feedPet", "", A1("input", Var("i")), <<Scalar("ok"), Linked("pet", <<Scalar("nickname")>>)>>)>>),
+            MutEP("DoFeed") >>, {"mutation-entrypoint", "var"}),
+    Prog(<< Component("Mutation", "DoFeed", <<VarDef("p", NonNull(tID))>>,
+                      <<LinkedA("feedPet", "", A1("input", ObjV(<< <<"petId", Var("p")>>, <<"amount", IntV("2")>> >>)), <<Scalar("ok")>>)>>),
+            MutEP("DoFeed") >>, {"mutation-entrypoint", "obj", "var-in-obj"}),
+    Prog(<< Component("Mutation", "DoFeed", <<>>,
+                      <<LinkedA("feedPet", "", A1("input", ObjV(<< <<"petId", StrV(sX)>> >>)), <<Scalar("ok")>>)>>),
+            MutEP("DoFeed") >>, {"mutation-entrypoint", "obj"}),
+    Prog(<< Component("Mutation", "Rename", <<VarDef("id", NonNull(tID))>>,
+                      <<LinkedA("setName", "", A2("id", Var("id"), "name", StrV(sX)), <<Scalar("name")>>)>>),
+            MutEP("Rename") >>, {"mutation-entrypoint", "var", "two-args"}),
+    Prog(<< Field("User", "A", <<>>, <<Scalar("name")>>), Field("User", "B", <<>>, <<Scalar("age"), Scalar("A")>>),
+            Home(<<>>, <<Linked("me", <<Scalar("A"), Scalar("B"), Scalar("name")>>)>>), EP,
+            Component("Query", "Other", <<>>, <<Linked("me", <<Scalar("B")>>)>>), Entrypoint("Query", "Other") >>, {"two-entrypoints"}) }
+
 Programs == CASE Family = "value"  -> ValueProgramsF
               [] Family = "pair"   -> PairPrograms
               [] Family = "shape2" -> ShapePrograms(2)
               [] Family = "shape3" -> ShapePrograms(3)
               [] Family = "shape4" -> ShapePrograms(4)
               [] Family = "combo"  -> ComboPrograms
-              [] Family = "quick"  -> ValueProgramsF \cup PairPrograms \cup ShapePrograms(2)
-              [] Family = "thorough" -> ValueProgramsF \cup PairPrograms \cup ShapePrograms(4) \cup ComboPrograms
+              [] Family = "special" -> SpecialPrograms
+              [] Family = "quick"  -> ValueProgramsF \cup PairPrograms \cup ShapePrograms(2) \cup SpecialPrograms
+              [] Family = "thorough" -> ValueProgramsF \cup PairPrograms \cup ShapePrograms(4) \cup ComboPrograms \cup SpecialPrograms
 
 VARIABLE prog
 Init == prog \in Programs
